@@ -448,40 +448,55 @@ def prevLeaf (s : Option Key) : (k : Nat) → Stk k → Iter
       | none => Iter.invalid
     else prevLeaf s (k + 1) rest
 
+/-- `seekFirst`: the child to descend into (`searchInner(n, start)`, or 0 without a start). -/
+def seekFirstChild {α : Type} (s : Option Key) (n : Inner α) : Nat :=
+  match s with
+  | some s => searchInner n.keys s
+  | none => 0
+
+/-- `seekFirst`: the position in the leaf (`searchLeaf(n, start)`, or 0 without a start). -/
+def seekFirstIdx (s : Option Key) (l : Leaf) : Nat :=
+  match s with
+  | some s => (searchLeaf l s).1
+  | none => 0
+
 /-- `seekFirst` (iterator.go:80-118): position at the first key ≥ start. -/
 def seekFirst (s e : Option Key) : (k : Nat) → Node k → Stk k → Iter
   | 0, (l : Leaf), stk =>
-    let idx := match s with
-      | some s => (searchLeaf l s).1
-      | none => 0
+    let idx := seekFirstIdx s l
     if idx ≥ l.es.length then nextLeaf e 0 stk
     else Iter.checkEnd e ⟨l, idx, stk, true⟩
   | k + 1, (n : Inner (Node k)), stk =>
-    let ci := match s with
-      | some s => searchInner n.keys s
-      | none => 0
+    let ci := seekFirstChild s n
     match n.kids[ci]? with
     | some c => seekFirst s e k c (.push n ci stk)
     | none => Iter.invalid
 
+/-- `seekLast`: the child to descend into (`searchInner(n, end)` clamped to the last
+child, or the last child without an end). -/
+def seekLastChild {α : Type} (e : Option Key) (n : Inner α) : Nat :=
+  match e with
+  | some e =>
+    let c := searchInner n.keys e
+    if c ≥ n.numChildren then n.numChildren - 1 else c
+  | none => n.numChildren - 1
+
+/-- `seekLast`: the number of leaf entries in front of the position
+(`searchLeaf(n, end)` — `leafIdx = pos - 1` whether or not `end` was found —
+or all of them without an end). -/
+def seekLastPos (e : Option Key) (l : Leaf) : Nat :=
+  match e with
+  | some e => (searchLeaf l e).1
+  | none => l.es.length
+
 /-- `seekLast` (iterator.go:121-167): position at the last key < end. -/
 def seekLast (s e : Option Key) : (k : Nat) → Node k → Stk k → Iter
   | 0, (l : Leaf), stk =>
-    match e with
-    | some e =>
-      -- `leafIdx = pos - 1` whether or not `end` was found
-      let pos := (searchLeaf l e).1
-      if pos = 0 then prevLeaf s 0 stk
-      else Iter.checkStart s ⟨l, pos - 1, stk, true⟩
-    | none =>
-      if l.es.length = 0 then prevLeaf s 0 stk
-      else Iter.checkStart s ⟨l, l.es.length - 1, stk, true⟩
+    let pos := seekLastPos e l
+    if pos = 0 then prevLeaf s 0 stk
+    else Iter.checkStart s ⟨l, pos - 1, stk, true⟩
   | k + 1, (n : Inner (Node k)), stk =>
-    let ci := match e with
-      | some e =>
-        let c := searchInner n.keys e
-        if c ≥ n.numChildren then n.numChildren - 1 else c
-      | none => n.numChildren - 1
+    let ci := seekLastChild e n
     match n.kids[ci]? with
     | some c => seekLast s e k c (.push n ci stk)
     | none => Iter.invalid
